@@ -332,7 +332,23 @@ def gen_cases(rng: Rng, tier):
                     keep = rng.randrange(ncol)
                     row = [c if (j == keep or rng.random() > p) else "n" for j, c in enumerate(row)]
                 cells.append(row)
-            yield dict(kind=kind, headers=hs, hk=hk, cells=cells, sep=rng.choice([",", ",", ";", "\t"]))
+            # pandas options forwarded through **kwargs: the file is RENDERED so that reading it with the option
+            # yields exactly the table (headers, cells) above; the oracle and the model only see that table
+            variant = rng.choice(["plain", "plain", "index_first", "index_first", "index_name", "index_last", "skiprows",
+                                  "comment", "usecols", "decimal", "na_values", "header_none", "nrows"])
+            if variant == "header_none":
+                hs, hk = [str(j) for j in range(ncol)], "positions(header=None)"
+            idk = rng.choice(["unique_text", "repeated_text", "repeated_int", "unsorted_int", "repeated_int"])
+            if idk == "unique_text":
+                ids = [f"s{j}" for j in range(nrow)]
+            elif idk == "repeated_text":
+                ids = [rng.choice(["a", "b"]) for _ in range(nrow)]
+            elif idk == "repeated_int":
+                ids = [str(rng.choice([3, 7])) for _ in range(nrow)]
+            else:
+                ids = [str(x) for x in rng.sample(range(100), nrow)]
+            yield dict(kind=kind, headers=hs, hk=hk, cells=cells, sep=rng.choice([",", ",", ";", "\t"]), variant=variant, ids=ids, idk=idk,
+                       junk=sorted(rng.sample(range(ncol + 1), rng.randint(1, 2))))
         elif kind == "ps":
             dim = 1 if rng.random() < 0.7 else 2
             if dim == 1:
@@ -660,14 +676,57 @@ def _run_csv(case):
     try:
         path = os.path.join(d, "data.csv")
         sep = case.get("sep", ",")
+        variant = case.get("variant", "plain")
+        kw = {} if sep == "," else dict(sep=sep)
+        if variant == "decimal":
+            sep, kw = ";", dict(sep=";", decimal=",")
+        num = (lambda q: _dec(q).replace(".", ",")) if variant == "decimal" else _dec
+        miss = "-999" if variant == "na_values" else ""
+        head = list(case["headers"])
+        body = [[miss if c == "n" else num(F(c)) for c in row] for row in case["cells"]]
+        ids = case.get("ids", [])
+        if variant in ("index_first", "index_name"):
+            head, body = ["id"] + head, [[i] + r for i, r in zip(ids, body)]
+            kw["index_col"] = 0 if variant == "index_first" else "id"
+        elif variant == "index_last":
+            head, body = head + ["id"], [r + [i] for i, r in zip(ids, body)]
+            kw["index_col"] = len(head) - 1
+        elif variant == "usecols":
+            keep = []
+            nh, nb = [], [[] for _ in body]
+            for j in range(len(head) + 1):
+                if j in case.get("junk", []):
+                    nh.append(f"zz{j}")
+                    for r in nb:
+                        r.append("77")
+                if j < len(head):
+                    keep.append(len(nh))
+                    nh.append(head[j])
+                    for r, r0 in zip(nb, body):
+                        r.append(r0[j])
+            head, body, kw["usecols"] = nh, nb, keep
+        elif variant == "na_values":
+            kw["na_values"] = [-999]
+        lines = [] if variant == "header_none" else [sep.join(head)]
+        lines += [sep.join(r) for r in body]
+        if variant == "header_none":
+            kw["header"] = None
+        if variant == "skiprows":
+            lines = ["exported by the lab", "second line; with, separators"] + lines
+            kw["skiprows"] = 2
+        if variant == "comment":
+            lines = ["# a comment line"] + lines[:1] + ["# another one"] + lines[1:]
+            kw["comment"] = "#"
+        if variant == "nrows":
+            lines += [sep.join(["1"] * len(head)), sep.join(["2"] * len(head))]
+            kw["nrows"] = len(body)
         with open(path, "w") as fh:
-            fh.write(sep.join(case["headers"]) + "\n")
-            for row in case["cells"]:
-                fh.write(sep.join("" if c == "n" else _dec(F(c)) for c in row) + "\n")
+            fh.write("\n".join(lines) + "\n")
+        out["kwargs"] = repr(kw)
         try:
             with warnings.catch_warnings():
                 warnings.simplefilter("ignore")
-                fd = read_csv(path) if sep == "," else read_csv(path, sep=sep)  # keyword forwarded to pandas
+                fd = read_csv(path, **kw)  # keywords forwarded to pandas
             if isinstance(fd, DenseFunctionalData):
                 out["cls"] = "dense"
                 out["args"] = [float(x) for x in fd.argvals["input_dim_0"]]
@@ -1323,7 +1382,8 @@ def classify(case, impl):
     elif k == "tolong":
         tags.append("tolong:" + case["sub"])
     elif k == "csv":
-        tags += ["csv-header:" + case["hk"], "csv-loaded:" + str(impl.get("cls", impl.get("error")))]
+        tags += ["csv-header:" + case["hk"], "csv-loaded:" + str(impl.get("cls", impl.get("error"))), "csv-option:" + str(case.get("variant")),
+                 "csv-ids:" + (str(case.get("idk")) if str(case.get("variant", "")).startswith("index") else "-")]
     elif k == "ps":
         tags += [f"ps:{case['dim']}d-{case['sub']}", "ps-penalty:" + ("0" if F(case["pen"]) == 0 else ">0"), "ps-penalty-spelling:" + str(case.get("penspell"))]
         if impl.get("rank", 99) < impl.get("K", 0):
